@@ -675,6 +675,7 @@ func runC09(w *World, r *Report) {
 
 	// ---- 4. error path ----
 	c09ErrorPath(w, r)
+	wholeInputRule(w, r, "C09")
 	c09CommentDelivery(w, r)
 	fmtCommentEndsLine(w, r, "C09")
 	r.assume("comments are only recoverable through hidden-channel queries at adjacent default-channel tokens (LINE_COMMENT -> channel(HIDDEN))")
@@ -778,6 +779,9 @@ func runC10(w *World, r *Report) {
 			}
 			isTokenRecv := strings.HasSuffix(types.TypeString(recv.Type(), shortQual), "antlr.Token")
 			switch {
+			case (name == "GetLine" || positionalMethods[name]) && onlyInDiagnostics(call):
+				// the position is only reported (line/column of a syntax error): it cannot reach the formatted text, which is not
+				// returned when an error was recorded
 			case name == "GetLine":
 				// allowed only as an operand of an equality between two GetLine() results (the same-line predicate)
 				okUse := lineOnlyCompared(call, 0)
@@ -1244,4 +1248,42 @@ func callNameRecv(c *ssa.Call) (string, ssa.Value) {
 		return f.Name(), c.Call.Args[0]
 	}
 	return "", nil
+}
+
+// onlyInDiagnostics: every use of v is an argument of a SyntaxError(...) report or a store into a model.SyntaxError record.
+func onlyInDiagnostics(v ssa.Value) bool {
+	refs := v.Referrers()
+	if refs == nil {
+		return false
+	}
+	n := 0
+	for _, ref := range *refs {
+		switch x := ref.(type) {
+		case *ssa.DebugRef:
+			continue
+		case ssa.CallInstruction:
+			name := ""
+			if x.Common().IsInvoke() {
+				name = x.Common().Method.Name()
+			} else if f := x.Common().StaticCallee(); f != nil {
+				name = f.Name()
+			}
+			if name != "SyntaxError" && name != "AddSyntaxError" {
+				return false
+			}
+			n++
+		case *ssa.Store:
+			fa, ok := x.Addr.(*ssa.FieldAddr)
+			if !ok {
+				return false
+			}
+			if tn, _, _, _ := fieldOf(fa); tn != "SyntaxError" {
+				return false
+			}
+			n++
+		default:
+			return false
+		}
+	}
+	return n > 0
 }
